@@ -476,6 +476,7 @@ class StmtMixin(object):
         lp = Loop(key, cvar.name, cond, step, body, src=where(n))
         lp.ns = ns
         lp.uservar = var
+        lp.init = init_val
         self.emit(lp)
         g = Ghost('loop%s.after' % n.get('_ord'))
         g.ns = self.namespace()
